@@ -23,6 +23,7 @@ import (
 	"github.com/projectcalico/calico/felix/bpf/asm"
 	"github.com/projectcalico/calico/felix/bpf/maps"
 	"github.com/projectcalico/calico/felix/bpf/polprog"
+	intdataplane "github.com/projectcalico/calico/felix/dataplane/linux"
 	"github.com/projectcalico/calico/felix/generictables"
 	"github.com/projectcalico/calico/felix/ipsets"
 	"github.com/projectcalico/calico/felix/iptables"
@@ -51,6 +52,16 @@ type cRule struct {
 type cTier struct {
 	Pass     bool
 	Policies [][]cRule
+	Staged   []bool // per policy: a Staged* kind (not enforced)
+}
+
+func (t *cTier) staged(i int) bool { return i < len(t.Staged) && t.Staged[i] }
+
+func kindOf(staged bool) string {
+	if staged {
+		return "StagedGlobalNetworkPolicy"
+	}
+	return "GlobalNetworkPolicy"
 }
 
 type cCfg struct {
@@ -84,8 +95,12 @@ func (c *cCfg) line() string {
 	var ts, ps []string
 	for _, t := range c.Tiers {
 		var pols []string
-		for _, p := range t.Policies {
-			pols = append(pols, rulesS(p))
+		for i, p := range t.Policies {
+			pre := ""
+			if t.staged(i) {
+				pre = "~"
+			}
+			pols = append(pols, pre+rulesS(p))
 		}
 		e := "D"
 		if t.Pass {
@@ -141,7 +156,9 @@ func parseLine(op string) *cCfg {
 			ep := strings.SplitN(ts, ":", 2)
 			ti := cTier{Pass: ep[0] == "P"}
 			for _, p := range strings.Split(ep[1], "/") {
-				ti.Policies = append(ti.Policies, parseRulesS(p))
+				st := strings.HasPrefix(p, "~")
+				ti.Policies = append(ti.Policies, parseRulesS(strings.TrimPrefix(p, "~")))
+				ti.Staged = append(ti.Staged, st)
 			}
 			c.Tiers = append(c.Tiers, ti)
 		}
@@ -212,7 +229,7 @@ func alpVerdict(c *cCfg) string {
 		}
 		info := &proto.TierInfo{Name: fmt.Sprintf("tier%d", ti), DefaultAction: da}
 		for pi, p := range t.Policies {
-			id := &proto.PolicyID{Name: polName(ti, pi), Kind: "GlobalNetworkPolicy"}
+			id := &proto.PolicyID{Name: polName(ti, pi), Kind: kindOf(t.staged(pi))}
 			info.IngressPolicies = append(info.IngressPolicies, id)
 			store.PolicyByID[types.ProtoToPolicyID(id)] = &proto.Policy{Tier: info.Name, InboundRules: protoRules(p)}
 		}
@@ -223,56 +240,57 @@ func alpVerdict(c *cCfg) string {
 		ep.ProfileIds = append(ep.ProfileIds, name)
 		store.ProfileByID[types.ProfileID{Name: name}] = &proto.Profile{InboundRules: protoRules(p)}
 	}
-	trace, err := checker.Evaluate(checker.EnforcedOnly, rules.RuleDirIngress, store, ep, flow{c.Proto})
-	if err != nil {
-		return "invalid"
-	}
-	if len(trace) == 0 {
+	// the verdict is the status code of the real checkTiers (via the export hook); the public
+	// Evaluate is run as well: it must not fail where checkTiers reached a verdict
+	code := checker.VerifCheckStore(checker.EnforcedOnly, store, ep, rules.RuleDirIngress, flow{c.Proto})
+	_, err := checker.Evaluate(checker.EnforcedOnly, rules.RuleDirIngress, store, ep, flow{c.Proto})
+	switch code {
+	case checker.OK:
+		if err != nil {
+			return "invalid"
+		}
+		return "allow"
+	case checker.PERMISSION_DENIED:
+		if err != nil {
+			return "invalid"
+		}
 		return "deny"
 	}
-	if trace[len(trace)-1].Action == rules.RuleActionAllow {
-		return "allow"
-	}
-	return "deny"
+	return "invalid"
 }
 
 // ---- bpf: the real builder + the C11 interpreter ----------------------------------------
 
-func toGProto(s string) *gProto {
-	if s == "" {
-		return nil
+// endpointState builds the policy/profile maps and the endpoint's TierInfo list (ingress) that
+// Felix's calculation graph would hand to the dataplanes.
+func endpointState(c *cCfg) (map[types.PolicyID]*proto.Policy, map[types.ProfileID]*proto.Profile, []*proto.TierInfo, []string) {
+	pols := map[types.PolicyID]*proto.Policy{}
+	profs := map[types.ProfileID]*proto.Profile{}
+	var tiers []*proto.TierInfo
+	for ti, t := range c.Tiers {
+		da := "Deny"
+		if t.Pass {
+			da = "Pass"
+		}
+		info := &proto.TierInfo{Name: fmt.Sprintf("tier%d", ti), DefaultAction: da}
+		for pi, p := range t.Policies {
+			id := &proto.PolicyID{Name: polName(ti, pi), Kind: kindOf(t.staged(pi))}
+			info.IngressPolicies = append(info.IngressPolicies, id)
+			pols[types.ProtoToPolicyID(id)] = &proto.Policy{Tier: info.Name, InboundRules: protoRules(p)}
+		}
+		tiers = append(tiers, info)
 	}
-	if n, err := strconv.Atoi(s); err == nil {
-		return &gProto{Num: int32(n)}
+	var names []string
+	for pi, p := range c.Profiles {
+		name := fmt.Sprintf("prof%d", pi)
+		names = append(names, name)
+		profs[types.ProfileID{Name: name}] = &proto.Profile{InboundRules: protoRules(p)}
 	}
-	return &gProto{IsName: true, Name: s}
-}
-
-func gRules(rs []cRule, id *uint64) []gRule {
-	var out []gRule
-	for _, r := range rs {
-		*id++
-		out = append(out, gRule{Action: r.Act, MatchID: *id, Proto: toGProto(r.Pr), NotProto: toGProto(r.NotPr)})
-	}
-	return out
+	return pols, profs, tiers, names
 }
 
 func bpfVerdict(c *cCfg) string {
 	g := &gCfg{FDs: [4]int{11, 12, 13, 14}, MaxJumps: 7992, UseJmps: true, AllowJmp: 5, DenyJmp: 9, Suppress: true}
-	var id uint64 = 10
-	for _, t := range c.Tiers {
-		gt := gTier{End: "d", EndID: 1}
-		if t.Pass {
-			gt.End = "p"
-		}
-		for _, p := range t.Policies {
-			gt.Policies = append(gt.Policies, gPolicy{Rules: gRules(p, &id)})
-		}
-		g.T = append(g.T, gt)
-	}
-	for _, p := range c.Profiles {
-		g.P = append(g.P, gPolicy{Rules: gRules(p, &id)})
-	}
 	var progs []asm.Insns
 	func() {
 		defer func() {
@@ -280,9 +298,14 @@ func bpfVerdict(c *cCfg) string {
 				progs = nil
 			}
 		}()
+		// the REAL conversion endpoint state -> polprog.Rules (staged policies skipped, a tier with
+		// only staged policies gets an end-of-tier pass): bpfEndpointManager.extractRules
+		pols, profs, tiers, names := endpointState(c)
+		rules := intdataplane.VerifC12ExtractRules(pols, profs, tiers, names, true)
+		rules.SuppressNormalHostPolicy = true
 		b := polprog.NewBuilder(idProvider{}, fdOf(11), fdOf(12), fdOf(13), fdOf(14), polprog.WithAllowDenyJumps(5, 9))
 		var err error
-		progs, err = b.Instructions(g.realRules())
+		progs, err = b.Instructions(rules)
 		if err != nil {
 			progs = nil
 		}
@@ -460,12 +483,27 @@ func iptVerdict(c *cCfg, dump bool) string {
 			da = "Pass"
 		}
 		tg := rules.TierPolicyGroups{Name: fmt.Sprintf("tier%d", ti), DefaultAction: da}
+		// even tiers with several policies: ONE policy group (exercises the group chain and its staged
+		// members); otherwise one group per policy
+		oneGroup := ti%2 == 0 && len(t.Policies) >= 2
+		var shared *rules.PolicyGroup
+		if oneGroup {
+			shared = &rules.PolicyGroup{Direction: rules.PolicyDirectionInbound, Selector: fmt.Sprintf("s%d", ti)}
+		}
 		for pi, p := range t.Policies {
-			id := &types.PolicyID{Name: polName(ti, pi), Kind: "GlobalNetworkPolicy"}
+			id := &types.PolicyID{Name: polName(ti, pi), Kind: kindOf(t.staged(pi))}
 			add(renderer.PolicyToIptablesChains(id, &proto.Policy{Tier: tg.Name, InboundRules: protoRules(p)}, 4)...)
+			if oneGroup {
+				shared.Policies = append(shared.Policies, id)
+				continue
+			}
 			grp := &rules.PolicyGroup{Direction: rules.PolicyDirectionInbound, Policies: []*types.PolicyID{id}, Selector: fmt.Sprintf("s%d_%d", ti, pi)}
 			add(renderer.PolicyGroupToIptablesChains(grp)...)
 			tg.IngressPolicies = append(tg.IngressPolicies, grp)
+		}
+		if oneGroup {
+			add(renderer.PolicyGroupToIptablesChains(shared)...)
+			tg.IngressPolicies = append(tg.IngressPolicies, shared)
 		}
 		tiers = append(tiers, tg)
 	}
@@ -573,12 +611,15 @@ func genCase(h *rt.H) []string {
 	if h.Chance(0.25) {
 		passP = 0.4
 	}
-	nt := h.Intn(4)
+	nt := h.Intn(5)
+	stagedP := rt.Pick(h, []float64{0, 0, 0.3, 0.6})
 	for i := 0; i < nt; i++ {
 		t := cTier{Pass: h.Chance(0.4)}
 		np := 1 + h.Intn(3)
+		allStaged := stagedP > 0 && h.Chance(0.3) // a tier holding only staged policies, in any position
 		for j := 0; j < np; j++ {
 			t.Policies = append(t.Policies, genRules(h, false, 0))
+			t.Staged = append(t.Staged, allStaged || h.Chance(stagedP))
 		}
 		c.Tiers = append(c.Tiers, t)
 	}
